@@ -1062,7 +1062,22 @@ fn c19_in_scope(e: &Value) -> bool {
 pub fn c19_ops(r: &mut Rng, t: u32, n: usize) -> Vec<Value> {
     let mut v = vec![];
     while v.len() < n {
-        match r.below(14) {
+        match r.below(16) {
+            14 | 15 => {
+                // "tiny" class: the exact result is non-zero but far below one unit of the requested precision, so the answer is
+                // 0 or +-1 unit depending on nothing but the thread's mode and the sign - through every rounding entry point
+                let f = 3 + r.below(16) as u32;                       // 3..=18 fractional digits
+                let x = neg1!(r, 1 + r.below(4) as i128);              // +-(1..4) units of 10^-f
+                let n = r.below((f - 2) as u64) as i64;               // requested digits well below f
+                match r.below(6) {
+                    0 => { let ty = int_type(r); let i = 1 + r.below(9) as i128; v.push(bin(t, "div_rounded", dj(x, f as u8), "dec", dj(neg1!(r, i).max(if ty.starts_with('u') { 1 } else { -9 }), 0), ty, n, r.below(4))); }
+                    1 => v.push(bin(t, "div_rounded", dj(x, f as u8), "dec", dj(neg1!(r, 3 + r.below(7) as i128), r.below(2) as u8), "dec", n, r.below(4))),
+                    2 => v.push(bin(t, "mul_rounded", dj(x, f as u8), "dec", dj(neg1!(r, 1 + r.below(5) as i128), 0), "dec", n, r.below(4))),
+                    3 => v.push(json!({"ev": "un", "t": t, "op": if r.bool() { "round" } else { "checked_round" }, "x": dj(x, f as u8), "n": n})),
+                    4 => v.push(bin(t, "quantize", dj(x, f as u8), "dec", dj(neg1!(r, 1 + r.below(7) as i128), (n as u8).min(18)), "dec", 0, r.below(4))),
+                    _ => v.push(json!({"ev": "fmt", "t": t, "x": dj(x, f as u8), "fi": r.below(4), "hasP": 1, "p": n, "hasW": 0, "w": 0})),
+                }
+            }
             11 | 12 | 13 => {
                 let mut e = match r.below(5) {
                     0 => c02(r, t, 1),
